@@ -24,11 +24,16 @@ func verifC06NoNewline(s string) bool {
 }
 
 // verifC06ReadPoint: name of 0..2 arbitrary bytes except '\n' (ToGroupID documents that
-// the name cannot contain it); for each of the first nkeys candidate keys the tag is
+// the name cannot contain it; when not grouping by measurement the name takes no part
+// and is one arbitrary byte); for each of the first nkeys candidate keys the tag is
 // absent or present with a value of 0..maxv arbitrary bytes.
-func verifC06ReadPoint(v *vrt.T, nkeys, maxv int) verifC06Point {
+func verifC06ReadPoint(v *vrt.T, byName bool, nkeys, maxv int) verifC06Point {
 	p := verifC06Point{}
-	p.name = v.String("name", v.Choose("namelen", 3))
+	if byName {
+		p.name = v.String("name", v.Choose("namelen", 3))
+	} else {
+		p.name = v.String("name", 1)
+	}
 	v.Assume(verifC06NoNewline(p.name))
 	for k := 0; k < nkeys; k++ {
 		n := v.Choose("vlen", maxv+2) // maxv+1 = absent
@@ -131,9 +136,9 @@ func verifC06Check(v *vrt.T, p, q verifC06Point, byName bool, dp, dq []int) {
 func VerifC06GroupIDFixedDims(v *vrt.T) {
 	nd := v.Choose("ndims", v.Bound("dims", 2)+1)
 	maxv := v.Bound("vbytes", 3)
-	byName := v.Bool("byName")
-	p := verifC06ReadPoint(v, nd, maxv)
-	q := verifC06ReadPoint(v, nd, maxv)
+	byName := v.Choose("byName", 2) == 1
+	p := verifC06ReadPoint(v, byName, nd, maxv)
+	q := verifC06ReadPoint(v, byName, nd, maxv)
 	var dims []int
 	for k := 0; k < nd; k++ {
 		dims = append(dims, k)
@@ -147,9 +152,9 @@ func VerifC06GroupIDFixedDims(v *vrt.T) {
 func VerifC06GroupIDAllDims(v *vrt.T) {
 	nk := v.Bound("keys", 2)
 	maxv := v.Bound("vbytes", 3)
-	byName := v.Bool("byName")
-	p := verifC06ReadPoint(v, nk, maxv)
-	q := verifC06ReadPoint(v, nk, maxv)
+	byName := v.Choose("byName", 2) == 1
+	p := verifC06ReadPoint(v, byName, nk, maxv)
+	q := verifC06ReadPoint(v, byName, nk, maxv)
 	idx := func(keys []string) []int {
 		var out []int
 		for _, s := range keys {
